@@ -12,6 +12,10 @@ TB_A = ("Trusted: CPython operator dispatch on engine.forksym.Lin, z3 linear ari
         "Stubs: tqdm -> identity, stderr -> sink.")
 
 CHECKS = {
+    "C06": dict(
+        technique="bounded symbolic execution (affine costs, z3 LIA) of the cost evaluator vs. independent recount",
+        text="For every valid mapping (and every ordered/unordered labelling in the bound) of an independent enumerator, the real node_event, reconciliation_cost, labeling_cost and cost are executed on symbolic unit costs and z3 proves the resulting affine form equal to the oracle recount for EVERY non-negative integer cost vector (plus the concrete infinite transfer cost).",
+        design="5/C06", engine="forksym"),
     "C01": dict(
         technique="bounded symbolic execution (affine costs, z3 LIA) of reconcile_thl / reconcile_exhaustive vs. independent enumerator",
         text="For every structural input in the bound and EVERY non-negative integer cost vector in the coherent region, on every "
